@@ -330,8 +330,76 @@ def run_S_and_H(pid, tier, seed):
 
 reg("C03", ["Props.C03_start_at_most_once", "Props.C03_exactly_once_at_done", "Props.C03_only_selected",
             "Props.C03_distinct_call_sites", "Props.C03_distinct_call_sites_flags", "Props.C11_setup_at_most_once"] + COMMON_S_THEOREMS, run_S_and_H, ASSUME_S)
+def placement_when_called_from_a_worker(inner_maxc, outer_maxc, inner_async):
+    """A DAG invoked at RUN time from a thread node of another DAG: its invoking thread is a pool worker of the outer DAG.
+    Pooled nodes of the inner DAG must still run on other threads, its main-thread nodes on the invoking (worker) thread."""
+    import asyncio as _a
+    import threading as _t
+    from tawazi import Resource as _R, xn as _xn
+    from tawazi._dag.constructor import threadsafe_make_dag as _mk
+    seen = {}
+
+    def mkf(name):
+        def f(*a):
+            seen.setdefault(name, []).append(_t.get_ident())
+            return name
+        f.__name__ = f.__qualname__ = name
+        return f
+    xt = _xn(mkf("t"), resource=_R.thread)
+    xt2 = _xn(mkf("t2"), resource=_R.thread)
+    xa = _xn(mkf("a"), resource=_R.async_thread)
+    xm = _xn(mkf("m"), resource=_R.main_thread)
+
+    def inner_desc():
+        return xt(), xa(), xm(xt2())
+    inner_desc.__name__ = inner_desc.__qualname__ = "inner_rt"
+    inner = _mk(inner_desc, inner_maxc, inner_async)
+
+    def call_inner():
+        seen["invoker"] = [_t.get_ident()]
+        r = inner()
+        return _a.run(r) if _a.iscoroutine(r) else r
+    call_inner.__name__ = call_inner.__qualname__ = "call_inner"
+    xc = _xn(call_inner, resource=_R.thread)
+
+    def outer_desc():
+        return xc()
+    outer_desc.__name__ = outer_desc.__qualname__ = "outer_rt"
+    outer = _mk(outer_desc, outer_maxc, False)
+    res = {}
+    th = _t.Thread(target=lambda: res.setdefault("v", outer()), daemon=True)
+    th.start(); th.join(20)
+    if th.is_alive() or "v" not in res:
+        return ["hang-or-exception"], seen
+    inv = seen["invoker"][0]
+    bad = []
+    for n_ in ("t", "t2", "a"):
+        if inv in seen.get(n_, []):
+            bad.append("pooled node %s ran on the invoking thread" % n_)
+    if seen.get("m") != [inv]:
+        bad.append("main-thread node ran off the invoking thread")
+    return bad, seen
+
+
+def run_S_C04(pid, tier, seed):
+    cov, fs, searcher = run_S(pid, tier, seed)
+    n = 0
+    for inner_maxc in (1, 2, 3):
+        for outer_maxc in (1, 2):
+            for inner_async in (False,):
+                n += 1
+                bad_, seen = placement_when_called_from_a_worker(inner_maxc, outer_maxc, inner_async)
+                if bad_:
+                    fs.append(Failure("counterexample", "placement-wrong-when-invoked-from-a-worker-thread",
+                                      dict(inner_max_concurrency=inner_maxc, outer_max_concurrency=outer_maxc, inner_async=inner_async),
+                                      dict(problems=bad_, thread_idents={k_: v_ for k_, v_ in seen.items()}), slice_="S"))
+    cov["runtime_nested_placements"] = n
+    cov["evaluations"] += n
+    return cov, fs, searcher
+
+
 reg("C04", ["Props.C04_inflight_le_maxc", "Props.C04_resource_decides", "Props.C04_in_flight_sets_match_resource"] + COMMON_S_THEOREMS,
-    lambda pid, tier, seed: run_S(pid, tier, seed),
+    run_S_C04,
     ASSUME_S + ["OS thread identity is observed by the harness (enter events), not modelled"])
 reg("C05", ["Props.C05_sequential_exclusive"] + COMMON_S_THEOREMS,
     lambda pid, tier, seed: run_S(pid, tier, seed), ASSUME_S)
